@@ -10,9 +10,9 @@ Model: the abstract engine accepts the task callbacks only in protocol order; th
 computing task reports when, on which thread) is not part of the model at all: every interleaving the
 real engine produces is replayed through the same `step`.  Proved: acceptance implies the protocol
 clauses, and under ANY schedule a successful build returns a value a brand-new engine computes
-(`C06_schedule_independent_value`).  Not proved: that `Clean` is single-valued for every `WF`
-program (it is for the harness's DSL by construction), the equality of executed sets across
-schedules, and anything below lock granularity (data races in the C++ memory model).  Lost wake-ups,
+(`C06_schedule_independent_value`), which is unique for deterministic clients
+(`C06_schedule_independent_value_eq`, via `Clean_unique`).  Not proved: the equality of executed
+sets across schedules, and anything below lock granularity (data races in the C++ memory model).  Lost wake-ups,
 deadlock and exactly-once hand-off at lock granularity are proved in Props/C06Handshake.lean.
 -/
 import LLBuild.Props.C01
@@ -127,5 +127,22 @@ theorem C06_schedule_independent_value {P : Program} (hP : P.WF) {evs₁ evs₂ 
   rw [htgt, t2] at t1
   cases t1
   exact ⟨r1, c1, by rw [henv]; exact c2⟩
+
+
+/-- ... and for deterministic clients (`Program.Det`: monotone requests, distinct ids) the values are
+EQUAL: the outcome does not depend on the completion order or on which threads reported. -/
+theorem C06_schedule_independent_value_eq {P : Program} (hP : P.WF) (hD : P.Det) {evs₁ evs₂ : List Event}
+    {s₁ s₁' s₂ s₂' : St} {v₁ v₂ : Val}
+    (h₁ : run P {} evs₁ = some s₁) (r₁ : step P s₁ (.ret v₁) = some s₁') (d₁ : s₁'.pendingDropped = false)
+    (ok₁ : s₁.cancelled = false ∧ s₁.cycleSeen = false ∧ s₁.errSeen = false)
+    (h₂ : run P {} evs₂ = some s₂) (r₂ : step P s₂ (.ret v₂) = some s₂') (d₂ : s₂'.pendingDropped = false)
+    (ok₂ : s₂.cancelled = false ∧ s₂.cycleSeen = false ∧ s₂.errSeen = false)
+    (henv : s₁.env = s₂.env) (htgt : s₁.target = s₂.target) : v₁ = v₂ := by
+  obtain ⟨root, c1, c2⟩ := C06_schedule_independent_value hP h₁ r₁ d₁ ok₁ h₂ r₂ d₂ ok₂ henv htgt
+  exact Clean_unique hD c1 c2
+
+/-- the harness's DSL programs are such clients whenever `DSL.det` says so -/
+theorem C06_dsl_deterministic {rules : List DSL.RuleSpec} (h : DSL.det rules = true) : (DSL.program rules).Det :=
+  DSL.program_Det h
 
 end LLBuild.Engine
